@@ -288,6 +288,13 @@ def observe_conv(inst):
         rec["e_bear"] = udeg(_bearing(e1, e2))
         rec["e_fsep"] = fxi(_sep(pos, e2), 1e9)
         rec["e_fbear"] = udeg(_bearing(pos, e2))
+        # the same helper, asked about a position one and a half pixels away, against a fresh helper
+        scale_deg = inst["s1"] / 3600.0 if "s1" in inst else abs(h.get("CDELT2", 1e-3))
+        pos2 = (pos[0] + 1.5 * scale_deg / max(math.cos(math.radians(pos[1])), 0.05), pos[1] + 1.1 * scale_deg)
+        used = list(w.sky2pix_vec(pos2, a, pa)) + list(w.sky2pix_ellipse(pos2, a, b, pa))
+        w2 = WCSHelper.from_header(h)
+        fresh = list(w2.sky2pix_vec(pos2, a, pa)) + list(w2.sky2pix_ellipse(pos2, a, b, pa))
+        rec["nb_diff"] = int(min(2 ** 30, round(1e6 * max(abs(float(u) - float(f)) for u, f in zip(used, fresh)))))
         rho = _sep(pos, (inst["ra0"], inst["dec0"]))
         t = math.tan(math.radians(rho)) if rho < 89 else 1e9
         rec["tanrho_pm"] = min(CLAMP_TAN_PM, int(math.ceil(t * 1000)))
@@ -475,7 +482,7 @@ CANNED = [
      "v_fsep": 13888889, "v_pa_in": 78372733, "v_pa_out": 78372733, "v_r_in": 13888889,
      "v_r_out": 13888889, "v_sep": 13888889, "v_spa": 9795, "v_ue": 9794, "v_un": 2017,
      "iv_r_out": 13888889, "iv_sep": 13888889, "iv_pa_out": 78372733, "iv_bear": 78372733,
-     "ie_a_out": 13888889, "ie_sep": 13888889},
+     "ie_a_out": 13888889, "ie_sep": 13888889, "nb_diff": 0},
     {"dir": "E", "err": "", "h_de": 2778254, "h_dn": 49, "h_pa": 90000983,
      "id": "canned-hand", "kind": "hand", "ratio_pm": 600, "scale_mas": 10000},
     {"bmaj": 13888889, "bmin": 8333333, "bpa": 78372733, "err": "", "id": "canned-psf",
@@ -506,6 +513,7 @@ def selftest(ctx):
     mut(conv, "ivgc", "vec_from_integer_pixel_is_great_circle", iv_r_out=lambda v: v - v // 300)
     mut(conv, "ivb", "vec_from_integer_pixel_is_bearing", iv_pa_out=lambda v: v + 30000)
     mut(conv, "iegc", "ell_from_integer_pixel_is_great_circle", ie_a_out=lambda v: v - v // 300)
+    mut(conv, "mem", "used_helper_answers_like_a_fresh_helper", nb_diff=7)
     mut(conv, "vfwd", "vec_sky2pix_great_circle_east_of_north", v_fbear=lambda v: v + 15000)
     mut(conv, "ven", "vec_east_of_north", v_ue=lambda v: -v)
     mut(conv, "ea", "ell_major_round_trip", e_a_out=lambda v: v - v // 500)
